@@ -67,3 +67,23 @@ func VerifHandleHandshakeResponse(cc *Session, info HandshakeResponseInfo) error
 }
 
 func VerifSessionNamespace(cc *Session) string { return cc.namespace }
+
+// VerifGenerations describes both generations of a Manager for the canonical state of the
+// two-phase search: the user tables and namespace names of the live and of the standby
+// generation, and whether a prepare is pending.
+func VerifGenerations(m *Manager) (live, standby *UserManager, liveNS, standbyNS []string, prepared bool) {
+	current, other, _ := m.switchIndex.Get()
+	live, standby = m.users[current], m.users[other]
+	names := func(nm *NamespaceManager) []string {
+		if nm == nil {
+			return nil
+		}
+		var out []string
+		for k := range nm.namespaces {
+			out = append(out, k)
+		}
+		sort.Strings(out)
+		return out
+	}
+	return live, standby, names(m.namespaces[current]), names(m.namespaces[other]), m.reloadPrepared.Get()
+}
